@@ -38,6 +38,7 @@ REQUIRED_REACH = [
     "probe:rle_record",
     "probe:rle_zero_run_followed_by_records",
     "probe:long_rle_followed_by_rle",
+    "probe:record_lands_at_start_of_image",
     "probe:eof_marker_straddles_refill",
     "probe:truncated_in:payload",
     "probe:truncated_in:rec_offset",
@@ -151,10 +152,22 @@ def gen_case(cseed: int, tier: str) -> dict[str, Any]:
         feats |= {"macros", "for"}
     if w.random() < 0.4:
         feats |= {"reloc"}
+    low_target = w.random() < 0.15
+    if low_target:
+        feats |= {"avoid_first_bank"}  # the host leaves the start of the image to the patch
     prog = progen.gen_program(w, mapping, feats, [], size=w.choice([4, 8, 12]))
     delta = w.choice(DELTAS)
     edge = None
-    if w.random() < 0.2:
+    low_first = None
+    if low_target:
+        # a record that lands at the very start of the image (final address 0, 1, ...): e.g. a patch made
+        # for a copier-headered ROM included with delta -0x200
+        t0 = w.choice([0, 0, 0, 1, 2, 0xFF, 0x1FF, 0x200])
+        off0 = t0 + w.choice([0, 0x200, 0x200, 0x8000, 0x100000])
+        delta = t0 - off0
+        n0 = w.choice([1, 2, 3, 16, 255])
+        low_first = (off0, "rle", (n0, w.randrange(1, 256)), 0) if w.random() < 0.3 else (off0, "plain", n0, w.getrandbits(32))
+    if not low_target and w.random() < 0.2:
         # a record at an edge of the 24-bit offset space; the delta is chosen so that it lands in the free zone
         edge = w.choice([0, 1, 0xFFFF, 0x10000, 0xFF0000, 0xFFFFFE, 0xFFFFFF, 0x454F45, 0x454F47])
         delta = w.randrange(FREE_LO, FREE_HI - 0x10000) - edge
@@ -163,6 +176,9 @@ def gen_case(cseed: int, tier: str) -> dict[str, Any]:
         n = w.choice([1, 2, 255, 4096])
         first = (edge, "rle", (n, w.randrange(256)), 0) if w.random() < 0.3 else (edge, "plain", n, w.getrandbits(32))
         recs = [first] + recs[: w.randrange(0, 4)]
+    if low_first is not None:
+        k = w.randrange(0, len(recs) + 1)
+        recs = recs[:k] + [low_first] + recs[k:]
     slots = [s for s in progen.iter_slots(prog) if s["assembled"] and not (s["file"] == "main.s" and not s["path"] and s["pos"] == 0)]
     slot = w.choice(slots)
     dform = w.choice(["lit", "lit", "const", "const_reassigned", "const_signed", "macro_arg"])
@@ -350,6 +366,8 @@ def run_single(case: dict[str, Any], stats: Stats) -> list[Violation]:
         stats.bump("probe:rle_zero_run_followed_by_records")
     if any(r[1] == "rle" and r[2][0] >= 0x1000 and any(q[1] == "rle" for q in recs[i + 1 :]) for i, r in enumerate(recs)):
         stats.bump("probe:long_rle_followed_by_rle")
+    if any(0 <= r[0] + delta < 0x400 for r in recs):
+        stats.bump("probe:record_lands_at_start_of_image")
     if case.get("via_writer"):
         stats.bump("probe:patch_from_a816_ipswriter")
     if case.get("second_delta") is not None:
@@ -412,6 +430,11 @@ def run_single(case: dict[str, Any], stats: Stats) -> list[Violation]:
         return out
     if klass == "well_formed":
         records = ipsref.parse(stored)
+        if any(r[0] + delta < 0 or r[0] + delta + len(ipsref.record_bytes(r)) > (1 << 24) for r in records):
+            # outside the image (can only come from a minimiser step or a generator slip): the statement says
+            # nothing about such a record, and a front end may rightly refuse to write it
+            stats.bump("no_verdict(record lands outside the 24-bit image)")
+            return out
         want = expected_image(records)
         if want is None:
             stats.bump("no_verdict(damaged offsets overlap host output)")
